@@ -4,9 +4,13 @@ guppylang* logic.  See DESIGN.md section 1.2."""
 from __future__ import annotations
 
 import json
+import os
 import sys
 
-REPO_PATHS = ["/repo/guppylang/src", "/repo/guppylang-internals/src"]
+# Registered checks always run /repo's working tree.  VF_REPO_ROOT points the same machinery at a
+# scratch worktree (used only to try deliberately broken copies; never set by MANIFEST commands).
+REPO_ROOT = os.environ.get("VF_REPO_ROOT", "/repo").rstrip("/")
+REPO_PATHS = [f"{REPO_ROOT}/guppylang/src", f"{REPO_ROOT}/guppylang-internals/src"]
 
 _BOOL_T = {"t": "Opaque", "extension": "tket.bool", "id": "bool", "args": [], "bound": "C"}
 _SUM_BOOL = {"t": "Sum", "s": "Unit", "size": 2}
@@ -216,5 +220,5 @@ def assert_repo_sources() -> None:
 
     for m in (guppylang, guppylang_internals):
         f = m.__file__ or ""
-        if not f.startswith("/repo/"):
-            raise SystemExit(f"BROKEN-HARNESS: {m.__name__} imported from {f}, not /repo")
+        if not f.startswith(REPO_ROOT + "/"):
+            raise SystemExit(f"BROKEN-HARNESS: {m.__name__} imported from {f}, not {REPO_ROOT}")
